@@ -112,3 +112,34 @@ def validate_multi_traces(cases, stats):
             stats.extra['trace_validation_mismatches'] += 1
             print('TRACE-VALIDATION-MISMATCH: %s' % json.dumps(info, default=repr)[:900])
     return agree
+
+
+def audit_sequence(servers, opts=('-n', '--skip-rate-test'), threads=1, ports=None, hosts=None):
+    """Several targets in ONE invocation (-T file, one worker thread => list order).  -> (result, per-target outputs)
+    Per-target outputs are text blocks, or JSON elements when -j is among the options."""
+    from . import report as _r
+    servers = list(servers)
+    resolver, smap = {}, {}
+    lines = []
+    for i, s in enumerate(servers):
+        h = hosts[i] if hosts else 'seq%d.example' % i
+        ip = '10.9.%d.1' % (hash(h) % 200)
+        ip = resolver[h][0][1] if h in resolver else '10.9.%d.1' % (len(resolver) + 1)
+        port = ports[i] if ports else 22
+        resolver[h] = [(int(socket.AF_INET), ip)]
+        smap[(ip, port)] = s
+        lines.append(h if port == 22 else '%s:%d' % (h, port))
+    w = vnet.World(servers=smap, resolver=resolver)
+    path = tmp_path('sequence-%d.txt' % os.getpid())
+    with open(path, 'w') as f:
+        f.write(''.join(l + '\n' for l in lines))
+    res = runner.run_cli(list(opts) + ['-T', path, '--threads', str(threads)], w)
+    outs = None
+    if '-j' in opts or '-jj' in opts:
+        try:
+            outs = json.loads(res.stdout)
+        except ValueError:
+            outs = None
+    else:
+        outs = _r.split_targets(res.stdout)
+    return res, outs
